@@ -277,6 +277,14 @@ MUTANTS += [
 ]
 
 MUTANTS += [
+    # ---- the environment of the call (DEBUG verbosity, escalated warnings): nothing a call returns may depend on it
+    ("c04_debug_summary_sorts_source", "C04", "solver.py", "    q0 = np.ascontiguousarray(srf_flx)\n",
+     "    q0 = np.ascontiguousarray(srf_flx)\n    if logger.isEnabledFor(10):\n        q0 = np.sort(q0, axis=None).reshape(q0.shape)\n"),
+    ("c09_discarded_branch_raises_invalid", "C09", "pbl_model.py", "    z = -h * np.log(-(zeta - aa) / bb)\n",
+     "    _unused = np.sqrt(np.asarray(-1.0 * float(meas_height)))\n    z = -h * np.log(-(zeta - aa) / bb)\n"),
+]
+
+MUTANTS += [
     ("c12_native_float64_regression", "C12", "solver.py",
      "    z = np.ascontiguousarray(z, dtype=float)\n    profiles = tuple(np.ascontiguousarray(prof, dtype=float) for prof in profiles)\n", ""),
 ]
